@@ -151,6 +151,8 @@ impl PartialEq for PeerConfig {
     fn eq(&self, other: &PeerConfig) -> bool {
         self.remote_asn == other.remote_asn
             && self.hold_time == other.hold_time
+            && self.protocols == other.protocols
+            && self.addpath == other.addpath
     }
 }
 
